@@ -132,7 +132,11 @@ def annotations(ctx):
     d2 = [u.format(x) for u in UNARY for x in LEAVES] + [b.format(x, y) for b in BINARY for x in LEAVES for y in LEAVES]
     # the same member used twice in one annotation, one use below another anonymous type (named wrappers are then cut by reference)
     reuse = [p.format(x) for x in LEAVES for p in ("tuple[typing.Optional[{0}], {0}]", "tuple[list[{0}], {0}]", "tuple[{0}, typing.Optional[{0}]]",
-                                                   "dict[str, tuple[{0}, list[{0}]]]")]
+                                                   "dict[str, tuple[{0}, list[{0}]]]",
+                                                   # the same anonymous type under two DIFFERENT parents (build order of the revisit)
+                                                   "tuple[list[tuple[{0}, ...]], dict[str, tuple[{0}, ...]]]",
+                                                   "tuple[list[list[{0}]], dict[str, list[{0}]]]",
+                                                   "tuple[dict[str, typing.Optional[{0}]], list[typing.Optional[{0}]]]")]
     out = d1 + d2 + reuse + ["tuple[()]", "tuple[tuple[int, ...], tuple[str, ...]]", "tuple[typing.Any, ...]", "list[T]", "dict[str, T]"]
     if ctx.tier == "quick" and ctx.scale == 1.0:
         r.shuffle(d2)
